@@ -360,6 +360,55 @@ func rulesC01(c *Ctx) {
 	})
 
 	c.Rule("R-C01-8", "a transport's producer goroutine cannot die silently: its exit always reaches the session's reader (close or error), otherwise pending calls stay blocked (streamable client: R-C09-3)", func() { ruleC01ProducerExit(c) })
+	c.Rule("R-C01-17", "the stdio/in-memory reader hands every outcome of a decode to Read, a failed decode included: between two Decode calls (and before exiting) the goroutine always passes the hand-off select, and it keeps its one decoder (bytes already buffered by a decoder that is dropped are lost, and with them the response that followed the garbage)", func() {
+		nio := c.Fn(pM, "", "newIOConn")
+		n := 0
+		for _, l := range nio.AllLits() {
+			var decCalls []*ast.CallExpr
+			for _, call := range l.AllCalls(l.Body, false) {
+				if fn := l.Callee(call); fn != nil && fn.FullName() == "(*encoding/json.Decoder).Decode" {
+					decCalls = append(decCalls, call)
+				}
+			}
+			if len(decCalls) == 0 {
+				continue
+			}
+			c.touch(l)
+			lg := l.Graph()
+			incT := "incoming"
+			_ = incT
+			isHandOff := func(v int) bool {
+				nd := lg.Node(v)
+				if nd == nil {
+					return false
+				}
+				found := false
+				ast.Inspect(nd, func(x ast.Node) bool {
+					if s, ok := x.(*ast.SendStmt); ok {
+						if cl, ok := ast.Unparen(s.Value).(*ast.CompositeLit); ok && namedOf(l.TypeOf(cl)) == c.P.LookupType(pM, "msgOrErr") {
+							found = true
+						}
+					}
+					return true
+				})
+				return found
+			}
+			for _, dc := range decCalls {
+				n++
+				dv := lg.VertexOf(dc)
+				ok, p := lg.MustPass(dv, append(append([]int(nil), lg.Exits...), dv), isHandOff)
+				c.Check(ok, "ioConn-reader:every-decode-is-handed-over", l, dc, "from Decode every path to the next Decode or to the goroutine's end passes the send of msgOrErr %s", lg.PathString(p))
+				// the decoder variable is assigned once
+				if sel, isS := ast.Unparen(dc.Fun).(*ast.SelectorExpr); isS {
+					if dobj := l.ObjOf(sel.X); dobj != nil {
+						nw := len(l.writesToVar(l.Body, dobj, true))
+						c.Check(nw <= 1, "ioConn-reader:one-decoder", l, dc, "the json.Decoder is created once per connection (%d assignments)", nw)
+					}
+				}
+			}
+		}
+		c.Pin("Decode calls in the reader goroutine of newIOConn", n, 1)
+	})
 	c.Rule("R-C01-9", "streamable client: a call whose response stream breaks is completed by a synthetic error or by failing the connection, never left pending (shared with R-C09-3)", func() { ruleStreamNeverSilent(c) })
 	c.Import("R-C01-13", "a response is matched to its call whatever spelling of the number the peer used for the id: decoded ids are strings or int64s only", "C19", "R-C19-1", func(k string) bool {
 		return strings.HasPrefix(k, "ID-representation") || strings.HasPrefix(k, "ID literals")
@@ -728,6 +777,27 @@ func responseArmRule(c *Ctx) {
 		cc, _ := ri.Enclosing(s.Call, func(n ast.Node) bool { _, ok := n.(*ast.CaseClause); return ok }).(*ast.CaseClause)
 		isResp := cc != nil && len(cc.List) == 1 && namedOf(ri.TypeOf(cc.List[0])) == c.P.LookupType(pJ, "Response")
 		c.Check(isResp, "response-arm:type", ri, s.Call, "completion closure sits in the *Response arm of the message type switch")
+		// every response gets there: the closure is the first thing the arm does on every path (a response that is
+		// "malformed", "late" or otherwise filtered in front of the lookup leaves its call pending for ever)
+		if cc != nil && len(cc.Body) > 0 {
+			rg := ri.Graph()
+			first := rg.VertexOf(cc.Body[0])
+			sv := rg.VertexOf(s.Call)
+			okFirst := first == sv
+			if !okFirst && first >= 0 && sv >= 0 {
+				okFirst = rg.Dominates(sv, sv) && func() bool {
+					// every path from the arm's first statement to anything outside the arm passes the closure call
+					seen, _ := rg.reach([]int{first}, func(u int) bool { return u == sv }, nil)
+					for u, in := range seen {
+						if in && u != sv && rg.Node(u) != nil && !encloses(cc, rg.Node(u)) {
+							return false
+						}
+					}
+					return true
+				}()
+			}
+			c.Check(okFirst, "response-arm:every-response-is-looked-up", ri, s.Call, "no path through the *Response arm skips the lookup-and-complete closure")
+		}
 		lg := l.Graph()
 		rc := calls[0]
 		rv := lg.VertexOf(rc)
